@@ -12,6 +12,7 @@ import socketio
 
 from sim import sio
 from sim.world import make_world
+from sim.choices import derive
 from sim.util import typed_eq, wire_norm
 from .common import V, trepr, REAL_CLIENT, STUBS
 
@@ -384,9 +385,14 @@ def _run(case, cfg, w):
                 ss.send_pkt(sio.CONNECT, p.nsp, None, {'sid': sid},
                             eio_sid=eio_sid)
             elif beh == 'refuse':
-                refused[p.nsp] = {'message': 'refused ' + p.nsp}
-                ss.send_pkt(sio.CONNECT_ERROR, p.nsp, None,
-                            {'message': 'refused ' + p.nsp},
+                # what a server puts into a refusal is its own business:
+                # usually {'message': ...}, but any JSON value may travel
+                pays = [{'message': 'refused ' + p.nsp}] * 5 + [
+                    '', {}, False, 'nope', ['a', 1], [], None]
+                pay = pays[derive(case['seed'], 'refusal', gen_no[0])
+                           % len(pays)]
+                refused[p.nsp] = pay
+                ss.send_pkt(sio.CONNECT_ERROR, p.nsp, None, pay,
                             eio_sid=eio_sid)
         if beh == 'silent':
             return
@@ -633,6 +639,19 @@ def _run(case, cfg, w):
                             v.add('connect_error_handler', '%s: refusal of '
                                   '%s reported %d times'
                                   % (where, ns, len(ce.get(ns, []))))
+                        elif b == 'refuse' and ns in refused:
+                            e0 = ce[ns][0]
+                            got = list(e0['args'])
+                            if e0['label'][2] == '*':
+                                got = got[1:]      # (the namespace first)
+                            pay = refused[ns]
+                            want = [] if pay is None else list(pay) \
+                                if isinstance(pay, list) else [pay]
+                            if not typed_eq(got, want):
+                                v.add('connect_error_arguments', '%s: %s '
+                                      'was refused with %s, the handler '
+                                      'received %s' % (where, ns, trepr(pay),
+                                                       trepr(got)))
                     # the client gives up the whole connection
                     accepted.clear()
                     if c.connected or c.namespaces or \
